@@ -424,7 +424,7 @@ Lemma c14_model_holds : forall c,
   c14_wf c = true -> holds c14_checker c (model c14_checker c) = true.
 Proof.
   intros c Hwf. cbn [holds model c14_checker]. unfold c14_holds. rewrite Hwf. cbn [andb].
-  destruct c as [t x|ids shape d t|op ra rb|t0 data0 steps]; cbn [c14_wf] in Hwf; cbn [c14_model].
+  destruct c as [t x|ids shape d t|op ra rb|t0 data0 act0 steps]; cbn [c14_wf] in Hwf; cbn [c14_model].
   - destruct x as [dd|new|dd|dd l st|dd l st|dd l]; cbn [xform_attrs xform_spec].
     + rewrite (split_attrs_spec _ _ Hwf). apply V_eqb_refl.
     + rewrite (swizzle_attrs_spec _ _ Hwf). apply V_eqb_refl.
